@@ -1,0 +1,24 @@
+//go:build verif
+
+// Contracts for the deductive verification of this package (see /verif/DESIGN.md).
+// This file contains only comments: with the build tag off it is not compiled, with the
+// tag on it adds no code. Each block is keyed by function name; loops by source order.
+
+package twig
+
+// ---------------------------------------------------------------- filters (C19, C05)
+
+//@ func toInt props: C05 C19
+//@   function
+
+//@ func sliceBounds props: C05 C19
+//@   arith checked
+//@   function
+//@   requires count >= 0 && count <= 4611686018427387904
+//@   ensures[C19] ret0 == twigLo(count, start) && ret1 == twigHi(count, start, hasLength, length)
+//@   ensures[C05] 0 <= ret0 && ret0 <= ret1 && ret1 <= count
+
+//@ func (*CoreExtension).filterSlice props: C05 C19
+//@   arith checked
+//@   ensures[C19] ret1 == nil && typeIs(value, "string") ==> typeIs(ret0, "string") && sliceStrSpec(unboxAs(value, "string"), fn_toInt_0(args[0]), len(args) > 1 && args[1] != nil, fn_toInt_0(args[1]), unboxAs(ret0, "string"))
+//@   ensures[C19] ret1 == nil && typeIs(value, "[]interface{}") ==> typeIs(ret0, "[]interface{}") && sliceListSpec(unboxAs(value, "[]interface{}"), fn_toInt_0(args[0]), len(args) > 1 && args[1] != nil, fn_toInt_0(args[1]), unboxAs(ret0, "[]interface{}"))
